@@ -40,7 +40,7 @@ def parseTrace (s : String) : Option (List (Int × Int)) :=
 def parseTraces (s : String) : Option (List (List (Int × Int))) :=
   if s == "-" then some [] else (s.splitOn "/").mapM parseTrace
 
-def parseDir : String → Option Dir
+def parseDir : String → Option XDir
   | "b" => some .both | "u" => some .upstream | "d" => some .downstream | _ => none
 
 structure Head where
@@ -54,7 +54,7 @@ structure Head where
   band : Option (Int × Int)
   seed : Option (Int × Int)
   thr : Int
-  dir : Dir
+  dir : XDir
   maxNumber : Int
   mts : Option Int
 
